@@ -1,16 +1,13 @@
 import Emmet.Css.Style
-/-! C05_hex_roundtrip: colour rendering never changes the colour's value (after the repair of defect #9). -/
+/-! C05_hex_roundtrip: colour rendering never changes the colour's value (model of `to_hex` / `as_hex` / `parse_color`). -/
 namespace S
 open CA
 
-/-- repaired `to_hex` (rjust) -/
-def toHexF (n : Nat) : Str := let h := hexLower n; List.replicate (2 - h.length) 48 ++ h
+/-- before the repair `to_hex` padded on the right (5 was rendered `50`, read back as 80); now: -/
+example : toHex 5 = [48, 53] ∧ hex2 48 53 = 5 := by decide +kernel
 
-/-- pinned code: negation witness of the round trip (defect #9): 5 is rendered `50` -/
-example : toHex 5 = [53, 48] ∧ hex2 53 48 = 80 := by decide +kernel
-
-theorem toHexF_two : ∀ n, n < 256 → ∃ a b, toHexF n = [a, b] ∧ hex2 a b = n := by
-  have h : ∀ n : Fin 256, (match toHexF n.1 with | [a, b] => hex2 a b == n.1 | _ => false) = true := by decide +kernel
+theorem toHex_two : ∀ n, n < 256 → ∃ a b, toHex n = [a, b] ∧ hex2 a b = n := by
+  have h : ∀ n : Fin 256, (match toHex n.1 with | [a, b] => hex2 a b == n.1 | _ => false) = true := by decide +kernel
   intro n hn
   have := h ⟨n, hn⟩
   simp only at this
@@ -20,10 +17,10 @@ theorem toHexF_two : ∀ n, n < 256 → ∃ a b, toHexF n = [a, b] ∧ hex2 a b 
 
 /-- six-digit form: `parse_color(as_hex(r,g,b))` is `(r,g,b)` for all channels -/
 theorem hex6_roundtrip (r g b : Nat) (hr : r < 256) (hg : g < 256) (hb : b < 256) :
-    parseColorRgb (toHexF r ++ toHexF g ++ toHexF b) = (r, g, b) := by
-  obtain ⟨a1, b1, h1, e1⟩ := toHexF_two r hr
-  obtain ⟨a2, b2, h2, e2⟩ := toHexF_two g hg
-  obtain ⟨a3, b3, h3, e3⟩ := toHexF_two b hb
+    parseColorRgb (toHex r ++ toHex g ++ toHex b) = (r, g, b) := by
+  obtain ⟨a1, b1, h1, e1⟩ := toHex_two r hr
+  obtain ⟨a2, b2, h2, e2⟩ := toHex_two g hg
+  obtain ⟨a3, b3, h3, e3⟩ := toHex_two b hb
   rw [h1, h2, h3]
   simp [parseColorRgb, e1, e2, e3]
 
